@@ -1,8 +1,8 @@
 import Model.Masked
 import Model.Generated.UfuncSites
 import Proofs.C19
-import Props.C13
-import Props.C18
+import Proofs.C13Spec
+import Proofs.C18Jc
 /-!
 C19 — results depend on arguments only, not on history, threads or heap contents.
 
@@ -19,8 +19,12 @@ WHAT IS PROVED (each an instance of one clause for executable models of the code
                       supporting statements: `masked_ufunc_garbage_independent` (both directions),
                       `shannon_entropy_eq_spec`, `*_out_independent_of_initial`, `bincount_*`.
 * thread clause     — `thread_clause_libdist_partial`, `thread_clause_libdist_initial_partial`,
-                      `thread_clause_joint_counts_partial`: the interleaving theorems of C13 and C18
-                      (other models of the same kernels, with schedules) restated.
+                      `thread_clause_joint_counts_partial`: word for word the statements of
+                      `C13.interleaving_independent`, `C13.out_independent_of_initial` and
+                      `C18.jc_interleaving` (other models of the same kernels, with schedules), proved from
+                      the same lemmas of Proofs/C13*, Proofs/C18Jc.  They are imported at the Proofs level,
+                      not through Props/C13, Props/C18, so that those properties' own source obligations
+                      (`decide`s over their generated tables) do not gate this file.
 * source obligations — `all_sites_initialised`, `all_alloc_sites_initialised`,
                       `all_accumulators_initialised`: `decide`d over tables regenerated from the source on
                       every run; they tie the heap clause to what the code contains today.
@@ -104,18 +108,20 @@ theorem heap_clause_modelled_partial (f : Rat → Rat) (lg : Rat → FV) : C19_a
 /-- THREAD CLAUSE for libdist (C13's model of the same kernels, with schedules): every interleaving of
 the rows' step sequences — any thread count, any assignment of iterations to threads, any preemption —
 leaves the buffer the sequential loop leaves. -/
-theorem thread_clause_libdist_partial {ε} (k : Ens.Dist.Kernel) (term : ε → ε → Rat) (rows : List (List ε)) (ys : List ε) (offset stride : Int) (buf : Nat → Ens.Dist.Cell) (hpos : ∀ i, i < rows.length → 0 ≤ Ens.Dist.idx1 offset stride i) (hs : stride ≠ 0 ∨ rows.length ≤ 1) (e : Ens.Sched.Exec Ens.Dist.Cell) (he : Ens.Sched.IsInterleaving (Ens.Dist.progsOf k term rows ys) e) : Ens.Dist.runMem offset stride e buf = Ens.Dist.runMem offset stride (Ens.Sched.seqExec (Ens.Dist.progsOf k term rows ys)) buf :=
-  C13.interleaving_independent k term rows ys offset stride buf hpos hs e he
+theorem thread_clause_libdist_partial {ε} (k : Ens.Dist.Kernel) (term : ε → ε → Rat) (rows : List (List ε)) (ys : List ε) (offset stride : Int) (buf : Nat → Ens.Dist.Cell) (hpos : ∀ i, i < rows.length → 0 ≤ Ens.Dist.idx1 offset stride i) (hs : stride ≠ 0 ∨ rows.length ≤ 1) (e : Ens.Sched.Exec Ens.Dist.Cell) (he : Ens.Sched.IsInterleaving (Ens.Dist.progsOf k term rows ys) e) : Ens.Dist.runMem offset stride e buf = Ens.Dist.runMem offset stride (Ens.Sched.seqExec (Ens.Dist.progsOf k term rows ys)) buf := by
+  apply Ens.Dist.runMem_interleaving_independent (Ens.Dist.progsOf k term rows ys) e _ he (Ens.Sched.seqExec_isInterleaving _)
+  · intro i hi; exact hpos i (by rw [Ens.Dist.progsOf_length] at hi; exact hi)
+  · rw [Ens.Dist.progsOf_length]; exact hs
 
 /-- THREAD + HEAP CLAUSE for libdist with a caller-supplied `out`: two runs under two arbitrary
 schedules, started from two arbitrary buffer contents, agree on every cell of the result. -/
 theorem thread_clause_libdist_initial_partial {ε} (k : Ens.Dist.Kernel) (term : ε → ε → Rat) (X y : Ens.Dist.Arr ε) (out1 out2 : Ens.Dist.Arr Ens.Dist.Cell) (choices1 choices2 : List Nat) (r1 r2 : Ens.Dist.Result) (hoff : out1.offset = out2.offset) (hsh : out1.shape = out2.shape) (hst : out1.strides = out2.strides) (h1 : Ens.Dist.kernelRun k term X y out1 choices1 = .ok r1) (h2 : Ens.Dist.kernelRun k term X y out2 choices2 = .ok r2) : ∃ n so, out1.shape = [n] ∧ out1.strides = [so] ∧ ∀ i, i < n → r1.buf[Ens.Dist.outPos out1.offset so i]? = r2.buf[Ens.Dist.outPos out1.offset so i]? ∧ (r1.buf[Ens.Dist.outPos out1.offset so i]?).isSome :=
-  C13.out_independent_of_initial k term X y out1 out2 choices1 choices2 r1 r2 hoff hsh hst h1 h2
+  Ens.Dist.kernelRun_init_independent k term X y out1 out2 choices1 choices2 r1 r2 hoff hsh hst h1 h2
 
 /-- THREAD CLAUSE for `libinfo.matrix_bincount2d` (C18's model): every interleaving of the `prange`
 iterations computes the table of the sequential triple loop. -/
 theorem thread_clause_joint_counts_partial (a b : Ens.Info.Arr) (e : Ens.Sched.Exec Ens.Info.Slab) (h : Ens.Sched.IsInterleaving (Ens.Info.progs a b) e) : Ens.Sched.run e (fun _ => Ens.Info.zeroSlab) = Ens.Sched.run (Ens.Info.seqExec a b) (fun _ => Ens.Info.zeroSlab) :=
-  C18.jc_interleaving a b e h
+  Ens.Info.jc_interleaving_core a b e h
 
 /-! ### (i) masked element-wise operation -/
 
